@@ -1,5 +1,5 @@
 """C10 - ungrouping grouped notes restores the original note stream (structural clauses)."""
-from ..rules import notes, records
+from ..rules import notes, records, grouping
 
 EXPLANATION = (
     "Static rule checking of ungroup_notes: R-REBUILD the head Note copies every field of the NoteWithTail, the tail Note takes "
@@ -24,10 +24,8 @@ def c2(ctx):
 
 def c5(ctx):
     # group_notes as the forward direction: the type filter precedes joining, nothing buffered is lost, a joined head keeps its fields
-    notes.grouping_order(ctx, join_guard=False)
-    f = ctx.p.func("simfile.notes.group:group_notes.attach_tail")
-    records.rebuild_site(ctx, f, "simfile.notes.group.NoteWithTail", 1, "head", {"tail_beat": "tail.beat"}, "joined head")
-    notes.attach_tail_rule(ctx)
+    grouping.group_level(ctx, join_guard=False)
+    grouping.joiner(ctx)
 
 
 def c3(ctx):
@@ -40,11 +38,11 @@ def c4(ctx):
 
 def sweep(ctx):
     """thorough: every construction of a note record and every enum comparison in the package is a judged site or recorded."""
-    records.rebuild_census(ctx, {("simfile.notes:NoteData._iter_measure", "simfile.notes.Note"): 1, ("simfile.notes.group:group_notes.attach_tail", "simfile.notes.group.NoteWithTail"): 1,
+    records.rebuild_census(ctx, {("simfile.notes:NoteData._iter_measure", "simfile.notes.Note"): 1, ("simfile.notes.group:group_notes.join_heads_to_tails_", "simfile.notes.group.NoteWithTail"): 1,
                                  ("simfile.notes.group:ungroup_notes", "simfile.notes.Note"): 2, ("simfile.notes.timed:time_notes", "simfile.notes.Note"): 1,
                                  ("simfile.notes.timed:time_notes", "simfile.notes.timed.TimedNote"): 2})
-    records.enum_census(ctx, {("simfile.notes.group:group_notes.join_head_to_tail", "orphaned_tail"), ("simfile.notes.group:group_notes.join_head_to_tail", "orphaned_head"),
-                                ("simfile.notes.group:group_notes.add_row", "same_beat_notes"), ("simfile.notes.group:ungroup_notes", "orphaned_notes"),
+    records.enum_census(ctx, {("simfile.notes.group:group_notes.join_heads_to_tails_", "orphaned_tail"), ("simfile.notes.group:group_notes.join_heads_to_tails_", "orphaned_head"),
+                                ("simfile.notes.group:group_notes", "same_beat_notes"), ("simfile.notes.group:ungroup_notes", "orphaned_notes"),
                                 ("simfile.notes.timed:time_notes", "unhittable_notes"), ("simfile.convert:_should_copy_property", "behavior")})
 
 
